@@ -606,6 +606,12 @@ func writeSplit(r *prng.R, n int) string {
 		// what is buffered
 		return fmt.Sprintf(" w=%d.%d", 1+r.Intn(13), mib+1+r.Intn(n-mib-13))
 	}
+	if n >= mib && n%mib == 0 {
+		// the plaintext ends exactly on a block boundary: some bytes pending, then a Write that completes the
+		// block and nothing after it — the held-back full block must become the FINAL one, not be flushed early
+		k := 1 + r.Intn(13)
+		return prng.Pick(r, fmt.Sprintf(" w=%d.%d", k, n-k), fmt.Sprintf(" w=%d.1", n-1), fmt.Sprintf(" w=%d.%d.0", k, n-k))
+	}
 	if n >= mib {
 		return prng.Pick(r, "", fmt.Sprintf(" w=%d.1", mib-1), fmt.Sprintf(" w=1.%d", mib), " w=0.5.0", fmt.Sprintf(" w=%d", mib))
 	}
